@@ -118,10 +118,18 @@ def check_case(inputs, cmps, job, registry):
                 except Exception as e:  # noqa
                     kind = "pydantic-rejects-sample"
                     import re as _re
-                    fields = _re.findall(r"\n(\w+)\n  value is not a valid (?:list|dict)", str(e))
-                    if fields and all(_re.search(r"\b%s: Optional\[(List\[None\]|Dict\[str, None\])\]" % f, text) for f in fields):
-                        # pydantic.v1 does not accept None for Optional[List[None]] / Optional[Dict[str, None]]
-                        kind = "F4-pydantic-optional-container-of-none"
+                    if _re.search(r"Optional\[(List\[None\]|Dict\[str, None\])\]", text):
+                        # pydantic.v1 does not accept None for Optional[List[None]] / Optional[Dict[str, None]]: the finding
+                        # is this one only if the same module with Any as the element type accepts the sample
+                        text2 = text.replace("Optional[List[None]]", "Optional[List[Any]]") \
+                                    .replace("Optional[Dict[str, None]]", "Optional[Dict[str, Any]]")
+                        if "import Any" not in text2 and " Any," not in text2 and ", Any" not in text2:
+                            text2 = "from typing import Any\n" + text2
+                        try:
+                            real.pydantic_parse(real.load_module(text2), cls_name, s)
+                            kind = "F4-pydantic-optional-container-of-none"
+                        except Exception:  # noqa
+                            pass
                     return {"kind": kind, "sample": s, "observed": f"{type(e).__name__}: {str(e)[:500]}",
                             "text": text[:4000]}, None
     return None, None
